@@ -239,6 +239,14 @@ class SymArray:
             raise R.PathEnd()
 
     def __setitem__(self, idx, v):
+        if isinstance(idx, SymArray) and idx.dtype != bool:
+            # a[index array] = values: element by element, later positions win (numpy's behaviour for repeated indices)
+            vals = list(v.e) if isinstance(v, SymArray) else (list(v) if isinstance(v, (list, tuple, numpy.ndarray)) else [v] * len(idx.e))
+            if len(vals) != len(idx.e):
+                raise Unsupported("fancy assignment with broadcasting")
+            for i, x in zip(idx.e, vals):
+                self[i] = x
+            return
         if is_sym(idx):
             ti, _ = R.num(idx)
             n = len(self.e)
@@ -383,6 +391,19 @@ class Masked:
 
     def _copy(self):
         return self
+
+    def _compact(self):
+        """the selected elements as an array: one fork per mask bit (2^n paths, n = bounded column length)"""
+        out = []
+        for x, m in zip(self.arr.e, self.mask.e):
+            if not is_sym(m):
+                keep = bool(m)
+            else:
+                t = truth(m)
+                keep = R.decide(2, lambda k, t=t: t if k == 0 else z3.Not(t)) == 0
+            if keep:
+                out.append(x)
+        return SymArray(out, self.arr.dtype)
 
 
 class _numpy_arith:
@@ -763,14 +784,22 @@ def m_bincount(x, weights=None, minlength=0):
 
 
 def m_diff(a, n=1, axis=-1, **kw):
+    if isinstance(a, Masked):
+        a = a._compact()
+    pre, app = kw.pop("prepend", None), kw.pop("append", None)
     if n != 1 or kw:
         raise Unsupported("diff(n != 1)")
+    if pre is not None or app is not None:
+        one = lambda v: v if (getattr(v, "_symarray", False) or isinstance(v, (list, tuple, numpy.ndarray))) else [v]   # noqa: E731
+        a = m_concatenate(([one(pre)] if pre is not None else []) + [a] + ([one(app)] if app is not None else []))
     return a[1:] - a[:-1]
 
 
 def m_concatenate(arrays, axis=0, **kw):
     out, dts = [], []
     for a in arrays:
+        if isinstance(a, Masked):
+            a = a._compact()
         if isinstance(a, SymArray):
             out += list(a.e)
             dts.append(a.dtype)
@@ -1137,6 +1166,7 @@ _reg(numpy.take, m_take)
 _reg(numpy.clip, m_clip)
 _reg(numpy.cumsum, m_cumsum)
 _reg(numpy.zeros_like, m_zeros_like)
+_reg(numpy.empty_like, m_zeros_like)
 _reg(numpy.asarray, m_asarray)
 _reg(numpy.array, m_asarray)
 _reg(numpy.isin, m_isin)
